@@ -196,6 +196,13 @@ func implGeo13(a []int64) []int64 {
 			}
 		}
 	}
+	// step counts below 3 are clamped to 3: the same approximation as an explicit 3
+	if steps < 3 && !math.IsNaN(m) && !math.IsInf(m, 0) {
+		c3 := geojson.NewCircle(geometry.Point{X: clon, Y: clat}, m, 3)
+		if c.Polygon().JSON() != c3.Polygon().JSON() {
+			h10 = false
+		}
+	}
 	return bools(h1, h2, h3, h4, h5, h6, h7, h8, h9, h10)
 }
 
@@ -429,7 +436,7 @@ func streamC13(w *W, rng *rand.Rand, tier string) {
 		if rng.Intn(3) == 0 {
 			m = math.Pow(10, 6*rng.Float64())
 		}
-		steps := []int{0, 2, 3, 4, 7, 12, 64, 64, 64, 360, 4096}[rng.Intn(11)]
+		steps := []int{0, 2, 3, 4, 7, 12, 64, 64, 64, 360, 4096, 1, -1, -64}[rng.Intn(14)]
 		// probe point: inside, outside, and in the sliver between the circle and its polygon approximation
 		var plat, plon float64
 		th := rng.Float64() * 360
